@@ -399,7 +399,18 @@ impl Prop for P {
                     samples,
                 }
             });
-        prop_oneof![6 => enclose, 1 => transform].boxed()
+        // wide programs: more than 256 values alive at once, so that memory
+        // slots beyond a byte are used (interval Load / Store at that scale)
+        let mut pw = gens::DagParams::all(60);
+        pw.consts = gens::fl_moderate();
+        pw.max_vars = 4;
+        let wide = (
+            gens::dag_wide(pw, 1..=4, 257..=300, false),
+            vec(interval_strategy(1e3), 8..=8),
+            samples_strategy(4..=6),
+        )
+            .prop_map(|(dag, boxes, samples)| Case::Enclose { dag, boxes, samples });
+        prop_oneof![tier.pick(300, 300) => enclose, tier.pick(50, 50) => transform, 1 => wide].boxed()
     }
 
     fn check(case: &Case, cx: &mut Cx) -> CheckResult {
